@@ -23,7 +23,36 @@ def negate(p):
         return ('is_some', p[2][0])
     if k == 'call' and re.search(r'Option::<T>::is_some$', p[1]):
         return ('is_none', p[2][0])
+    if k == 'call' and len(p) > 3 and re.search(r'cmp::PartialEq(<.*>)?::(eq|ne)$', p[3]) and re.search(r'::(eq|ne)$', p[1]):
+        # !(a == b) through the trait method is the other method of the same impl
+        flip = lambda t: re.sub(r'::(eq|ne)$', lambda m: '::ne' if m.group(1) == 'eq' else '::eq', t)
+        return ('call', flip(p[1]), p[2], flip(p[3])) + tuple(flip(x) if isinstance(x, str) else x for x in p[4:])
     return ('un', 'Not', p)
+
+
+def canon_pred(p, depth=0):
+    """one spelling for equivalent conditions: negations pushed inward (`!(a == b)` is `a != b`, `!(a < b)` is `a >= b`,
+    `!x.is_none()` is `x.is_some()`, `!!c` is `c`), a constant on the left moved to the right (`0 < x` is `x > 0`),
+    `x >= 1` is `x > 0`"""
+    if not isinstance(p, tuple) or not p or depth > 8:
+        return p
+    p0 = strip(p)
+    if p0[0] == 'un' and p0[1] == 'Not':
+        inner = canon_pred(p0[2], depth + 1)
+        n = negate(inner)
+        return n
+    if p0[0] == 'call' and re.search(r'Option::<T>::is_none$', p0[1]) and p0[2]:
+        return ('is_none', p0[2][0])
+    if p0[0] == 'call' and re.search(r'Option::<T>::is_some$', p0[1]) and p0[2]:
+        return ('is_some', p0[2][0])
+    if p0[0] == 'bin' and p0[1] in FLIP:
+        op, a, b = p0[1], p0[2], p0[3]
+        if strip(a)[0] == 'int' and strip(b)[0] != 'int':
+            op, a, b = SWAP[op], b, a
+        if op == 'Ge' and strip(b)[0] == 'int' and strip(b)[1] == 1:
+            op, b = 'Gt', ('int', 0) + tuple(strip(b)[2:])
+        return ('bin', op, a, b)
+    return p
 
 
 def norm_pred(cond, label):
@@ -49,9 +78,9 @@ def norm_pred(cond, label):
     elif p[0] == 'call' and re.search(r'Option::<T>::is_some$', p[1]):
         p = ('is_some', p[2][0])
     if label is True:
-        return p
+        return canon_pred(p)
     if label is False:
-        return negate(p)
+        return canon_pred(negate(canon_pred(p)))
     return ('eqlit', cond, label)
 
 
